@@ -44,6 +44,11 @@ fn entry_details_from_metadata(m: std::fs::Metadata, path: &Path) -> Result<Entr
             Ok(m) => m,
             Err(err) => return Err(format!("Unknown modified time for '{}': {err}", path.display())),
         };
+        // Times before 1970 can't be sent to the boss (SystemTime is serialized as the time elapsed since UNIX_EPOCH,
+        // and failing to serialize it would take down this doer), so report this as a regular error instead
+        if modified_time < std::time::UNIX_EPOCH {
+            return Err(format!("Modified time of '{}' is before 1970, which is not supported", path.display()));
+        }
 
         Ok(EntryDetails::File {
             modified_time,
